@@ -434,7 +434,12 @@ def task_activation(t):
                 fired = int(s.bus.h.cmd('FAILLEFT').split()[1]) > 1000000000
                 s.bus.h.cmd('FAILALLOC off')
             s.settle()
-            time.sleep(0.03)
+            # the service process is started asynchronously: when an activation is pending now that was not before, wait
+            # for the stub's start record (generously); otherwise give an erroneous start a moment to show up
+            if kind != 'take' and not prior and s.impl_pending().get(c19.S1, 0) >= 1:
+                s.settle(want_started={c19.S1: started0 + 1})
+            else:
+                time.sleep(0.15)
             s.settle()
             box = s.take(who)
             errs = [o for o in box if o.kind == R.MT_ERROR and o.rserial == ser]
